@@ -69,7 +69,7 @@ func (p P) label() string {
 
 // blind alphabets (index -> bytes) -------------------------------------------------------
 
-var blindNames = []string{"1", "2", "N-1", "leading-zero-byte", "drbg-a", "drbg-b", "high-bit"}
+var blindNames = []string{"1", "2", "N-1", "leading-zero-byte", "drbg-a", "drbg-b", "high-bit", "leading-zero-byte scalar in its minimal encoding (type 1: 47 bytes)"}
 
 // degenerate blinds (kinds >= 100): what the call does with them is its own business (an error
 // is fine), but it must do the same thing every time
@@ -104,6 +104,8 @@ func p384Blind(seed int64, kind int, label string) []byte {
 		out[1] |= 0x80
 	case 6: // 2^383
 		out[0] = 0x80
+	case 7: // the scalar of kind 3 in its minimal 47-byte encoding (leading zero byte left out)
+		return p384Blind(seed, 3, label)[1:]
 	default:
 		v := new(big.Int).SetBytes(mc.Fill(seed, fmt.Sprintf("c11-sc%d-%s", kind, label), 56))
 		v.Mod(v, new(big.Int).Sub(n, big.NewInt(1)))
@@ -117,6 +119,9 @@ func p384Blind(seed int64, kind int, label string) []byte {
 func ristBlind(seed int64, kind int, label string) []byte {
 	g := group.Ristretto255
 	var s group.Scalar
+	if kind == 7 {
+		kind = 3 // fixed-width little-endian encoding: no shorter spelling
+	}
 	switch kind {
 	case 100:
 		return nil
@@ -529,6 +534,9 @@ func runPair(p P) (outcome string, v *mc.Viol) {
 	same := "distinct"
 	if bytes.Equal(a1.req, b.req) {
 		same = "equal"
+	}
+	if p.T == 1 && (p.I == 3 && p.J == 7 || p.I == 7 && p.J == 3) && same != "equal" {
+		return differ("request bytes depend on how the blind is spelled (same scalar with and without its leading zero byte)", b.req, a1.req)
 	}
 	if p.T == 2 && p.I != p.J {
 		n := px.RSAKeys()[p.Key].N
@@ -973,7 +981,7 @@ func main() {
 	// ---- pairs ----
 	oprfKeys := mc.Pick(r, []int{0, 3, 5}, []int{0, 1, 2, 3, 4, 5})
 	rsaKeys := mc.Pick(r, []int{0, 1}, []int{0, 1, 2, 3})
-	nBlinds := 7                  // group scalars: 1, 2, N-1, leading zero byte, DRBG (+ DRBG, 2^k)
+	nBlinds := 8                  // group scalars: 1, 2, N-1, leading zero byte, DRBG (+ DRBG, 2^k), minimal spelling of the leading-zero one
 	nRSABlinds := 9               // 1, 2, 3, 65537, two DRBG values mod N, respellings with leading zero bytes, N-1
 	inputs := mc.Pick(r, 2, 3)    // types 1, 5
 	rsaInputs := mc.Pick(r, 1, 2) // type 2
